@@ -66,6 +66,8 @@ struct Cfg {
     drop_fields: BTreeSet<String>,
     int_consts: BTreeMap<String, i64>,
     unreachable: Option<String>,
+    take_stmts: Option<usize>,
+    tail: Option<String>,
 }
 
 fn default_methods() -> BTreeMap<String, String> {
@@ -856,6 +858,27 @@ impl<'a> Tr<'a> {
             fn visit_expr_return(&mut self, _: &'ast ExprReturn) { self.0 = true; }
             fn visit_expr_closure(&mut self, _: &'ast ExprClosure) {}
         }
+        // `for x in xs { if c { return v; } }` (v independent of x): an existential test
+        if f.body.stmts.len() == 1 {
+            if let Stmt::Expr(Expr::If(i), _) = &f.body.stmts[0] {
+                if i.else_branch.is_none() && i.then_branch.stmts.len() == 1 && !matches!(&*i.cond, Expr::Let(_)) && !has_return_expr(&i.cond) {
+                    if let Stmt::Expr(Expr::Return(r), _) = &i.then_branch.stmts[0] {
+                        let iter = self.expr(&f.expr)?;
+                        self.ctr.set(self.ctr.get() + 1);
+                        let it = format!("it_{}", self.ctr.get());
+                        let mut body = String::new();
+                        self.bind_pat(&f.pat, &it, &mut body)?;
+                        body.push_str(&self.expr(&i.cond)?);
+                        let v = match &r.expr {
+                            Some(x) => self.expr(x)?,
+                            None => "()".into(),
+                        };
+                        let rest_code = self.stmts(rest, k)?;
+                        return Ok(format!("(if (List.any {} (fun {} =>\n{})) then\n{}\nelse\n{})", iter, it, body, v, rest_code));
+                    }
+                }
+            }
+        }
         let mut j = J(false);
         visit::Visit::visit_block(&mut j, &f.body);
         if j.0 {
@@ -1201,6 +1224,8 @@ fn main() {
             cfg.pre = t.get("pre").and_then(|x| x.as_array()).map(|a| a.iter().filter_map(|x| x.as_str().map(|s| s.to_string())).collect()).unwrap_or_default();
             cfg.consts = consts.clone();
             cfg.unreachable = get_str(t, "unreachable");
+            cfg.take_stmts = t.get("take_stmts").and_then(|x| x.as_u64()).map(|x| x as usize);
+            cfg.tail = get_str(t, "tail");
             if let Some(Value::Object(m)) = t.get("int_consts") {
                 for (a, b) in m {
                     if let Some(v) = b.as_i64() {
@@ -1292,7 +1317,20 @@ fn main() {
                     for p in &cfg.pre {
                         writeln!(body, "{}", p).unwrap();
                     }
-                    body.push_str(&tr.stmts(&body_stmts, &|v| Ok(v))?);
+                    let mut body_stmts = body_stmts;
+                    if let Some(n) = cfg.take_stmts {
+                        // only the first n statements are translated; the rest of the body is the opaque `tail` expression
+                        body_stmts.truncate(n);
+                        let tail = cfg.tail.clone().ok_or("take_stmts needs \"tail\"")?;
+                        let tail_key = "verif_tail_placeholder()";
+                        body_stmts.push(parse_str::<Stmt>(&format!("return {};", tail_key)).unwrap());
+                        let mut cfg2 = cfg.clone();
+                        cfg2.subst.push((norm(tail_key), tail));
+                        let tr2 = Tr { cfg: &cfg2, known: &known, ctr: std::cell::Cell::new(0) };
+                        body.push_str(&tr2.stmts(&body_stmts, &|v| Ok(v))?);
+                    } else {
+                        body.push_str(&tr.stmts(&body_stmts, &|v| Ok(v))?);
+                    }
                     let nc = if cfg.noncomputable { "noncomputable " } else { "" };
                     Ok((format!("{}def {} {} : {} :=\n{}\n", nc, ident(&cfg.name), params, ret, body), lo, hi, text))
                 }
